@@ -16,6 +16,16 @@ partial def loop (h : IO.FS.Stream) (n bad : Nat) : IO Nat := do
       IO.println s!"MISMATCH {n}: cwd={cwd} p={p}\n  real  join={joined} js={js}\n  model join={str j} js={str k}"
       loop h (n + 1) (bad + 1)
     else loop h (n + 1) bad
+  | [cwd, p, joined, js, _parent, inside] =>
+    let j := pjoin (s cwd) (s p)
+    let k := joinSuffix (s "/srv/b/t") j
+    let r := match resolveInside (suffixRest j) with
+      | none => "err"
+      | some q => "ok /" ++ "/".intercalate (q.map str)
+    if str j ≠ joined || str k ≠ js || (inside ≠ "-" && r ≠ inside) then
+      IO.println s!"MISMATCH {n}: cwd={cwd} p={p}\n  real  join={joined} js={js} resolve_inside={inside}\n  model join={str j} js={str k} resolve_inside={r}"
+      loop h (n + 1) (bad + 1)
+    else loop h (n + 1) bad
   | _ => IO.println s!"bad line {n}: {l}"; loop h (n + 1) (bad + 1)
 def main : IO Unit := do
   let bad ← loop (← IO.getStdin) 1 0
